@@ -859,8 +859,10 @@ func (f *Frame) pureCall(st *State, r *Term, target *ssa.Function, tmap TMap, ct
 	for i := 0; i < sig.Results().Len(); i++ {
 		rt := cf.subst(sig.Results().At(i).Type())
 		v := f.ctx.uf("pure!"+funcKey(target)+"!"+itoa(i), cf.sortOf(rt), ts...)
-		v = f.ctx.define("pure", v)
-		f.assumeWf(st, v, rt)
+		if !mentionsBound(v) {
+			v = f.ctx.define("pure", v)
+			f.assumeWf(st, v, rt)
+		}
 		out = append(out, v)
 	}
 	f.ctx.trusted["pure function "+funcKey(target)+": its result is a function of its arguments and of the heap components it can read (determinism of sequential Go code)"] = true
